@@ -45,6 +45,12 @@ CLAIMS = {
   note="Assumed (and carrying most of the property): bufio, encoding/csv, encoding/xml, encoding/json, x/text charmap decoders, go-corelib BytesReplacingReader/scanner/StripBOM produce output that is a function of the byte content only. Alias validity of buffered lines/segments across source reads is not yet under contract.",
   technique="contract-style frame obligation decided by SSA call-graph analysis (no SMT)",
   design_ref="§6 C09"),
+ "C13": dict(
+  category="proof",
+  text="Each function that consults a cache or pool has one postcondition that does not mention the cache, proved on every path: CreateNode (pooled and allocating path: same blank node, never-acquired ID), loadXPathExpr (cached and DisableXPathCache path: the expression compiled from exprStr), getProgram (cached and uncached path: the program compiled from js), reset/allocNode (a recycled node gets a newly issued ID, so ID-keyed caches cannot alias it); the per-record transform-result cache is only usable with ghost validity that a fresh context has and any advance of the reader destroys (ingester.Read creates the context per record: requires@ParseNode:cacheOK). getNodeJSON's postcondition '_node JSON is the node's present JSON' fails on the cached path: recorded known finding F8.",
+  note="Assumed: LRU Get(k) returns what the loader returned for k in this or an earlier call (eviction only turns hits into misses); xpath.Compile and goja.Compile are functions of their source text; the linking axioms 'JSProgramCache/NodeToJSONCache are only loaded by getProgram/getNodeJSON loaders'; sync.Pool as in C12. The JavaScript VM pool (globals restored after each run) is decided under C20; the transform-result cache key soundness (node ID + declaration hash determine the value) under C02.",
+  technique="contract-based deductive verification: one cache-free postcondition per function, both paths, SMT",
+  design_ref="§6 C13"),
 }
 
 NOT_BUILT = "check not built yet in this session (planned, see DESIGN.md §6); not claimed until its obligations discharge on the unchanged tree"
